@@ -840,6 +840,67 @@ impl State {
                 Err(p) => self.fail("panic", format!("{src:?}: renaming panicked at {p}"), case, json!({"panic": p})),
             }
         }
+        // the same sequence however the iterator is consumed: element by element, `next` then a fold-based adaptor
+        // (`for_each`), `count` / `last`, `nth` (an iterator may override these)
+        let styles = guard(|| {
+            fn consume<'a, I: Iterator<Item = &'a str>>(mk: &dyn Fn() -> I) -> Vec<(&'static str, Vec<String>)> {
+                let all: Vec<String> = mk().map(String::from).collect();
+                let mut by_next = Vec::new();
+                let mut it = mk();
+                while let Some(x) = it.next() {
+                    by_next.push(x.to_string());
+                }
+                let mut next_then_fold = Vec::new();
+                let mut it = mk();
+                if let Some(x) = it.next() {
+                    next_then_fold.push(x.to_string());
+                }
+                it.for_each(|x| next_then_fold.push(x.to_string()));
+                let mut two_then_fold = Vec::new();
+                let mut it = mk();
+                for _ in 0..2 {
+                    if let Some(x) = it.next() {
+                        two_then_fold.push(x.to_string());
+                    }
+                }
+                two_then_fold.extend(it.fold(Vec::new(), |mut acc, x| {
+                    acc.push(x.to_string());
+                    acc
+                }));
+                let n = mk().count();
+                let mut count_last: Vec<String> = all.iter().take(n.saturating_sub(1)).cloned().collect();
+                if n != all.len() {
+                    count_last.push(format!("<count {n}>"));
+                }
+                if let Some(l) = mk().last() {
+                    count_last.push(l.to_string());
+                }
+                let by_nth: Vec<String> = (0..all.len() + 1).filter_map(|k| mk().nth(k).map(String::from)).collect();
+                vec![("collect", all), ("next", by_next), ("next + for_each", next_then_fold), ("next, next + fold", two_then_fold),
+                     ("count / last", count_last), ("nth", by_nth)]
+            }
+            vec![
+                ("iter_identifiers", consume(&|| tree.iter_identifiers())),
+                ("iter_variable_identifiers", consume(&|| tree.iter_variable_identifiers())),
+                ("iter_read_variable_identifiers", consume(&|| tree.iter_read_variable_identifiers())),
+                ("iter_write_variable_identifiers", consume(&|| tree.iter_write_variable_identifiers())),
+                ("iter_function_identifiers", consume(&|| tree.iter_function_identifiers())),
+            ]
+        });
+        match styles {
+            Ok(all) => {
+                for (name, results) in all {
+                    let reference = results[0].1.clone();
+                    for (style, r) in &results[1..] {
+                        if *r != reference {
+                            self.fail("occ", format!("{src:?}: {name} consumed by {style} yields {r:?}, collected {reference:?}"), case,
+                                      json!({"iter": name, "style": style, "got": r}));
+                        }
+                    }
+                }
+            },
+            Err(p) => self.fail("panic", format!("identifier iterators of {src:?} panicked at {p}"), case, json!({"panic": p})),
+        }
         for ((name, imm, mutv), w) in got.iter().zip(wants.iter()) {
             if imm != w {
                 self.fail("occ", format!("{src:?}: {name} = {imm:?}, specification {w:?}"), case, json!({"iter": name, "got": imm}));
